@@ -245,6 +245,21 @@ func explore(P *sym.Program, name string, base sym.Config, hc *HarnessCfg, regio
 	covers := map[string]bool{}
 	fn := P.Harness[name]
 
+	progressDone := make(chan struct{})
+	go func() {
+		tk := time.NewTicker(15 * time.Second)
+		defer tk.Stop()
+		for {
+			select {
+			case <-progressDone:
+				return
+			case <-tk.C:
+				mu.Lock()
+				fmt.Fprintf(os.Stderr, "  .. %s: %d paths, %d queued, %v (%.0fs)\n", name, res.Paths, len(stack), res.Kinds, time.Since(t0).Seconds())
+				mu.Unlock()
+			}
+		}
+	}()
 	var wg sync.WaitGroup
 	for k := 0; k < nw; k++ {
 		wg.Add(1)
@@ -337,6 +352,7 @@ func explore(P *sym.Program, name string, base sym.Config, hc *HarnessCfg, regio
 		}()
 	}
 	wg.Wait()
+	close(progressDone)
 	res.WallS = time.Since(t0).Seconds()
 	res.Exhausted = len(stack) == 0 && !stopped
 	for c := range covers {
